@@ -4,13 +4,20 @@
 
 mod acc;
 mod cases;
+mod cnt;
 mod common;
+mod conc;
 mod dd;
+mod fp;
+mod fpx;
 mod guard;
 mod inputs;
 mod out;
+mod planmon;
 mod refdft;
 mod rng;
+mod seqmon;
+mod shape;
 mod stats;
 
 use out::J;
@@ -76,6 +83,7 @@ fn parse_args() -> Args {
 fn selftest() -> Result<(), String> {
     dd::selftest()?;
     refdft::selftest()?;
+    fp::selftest()?;
     Ok(())
 }
 
@@ -95,6 +103,7 @@ fn main() {
             }
         },
         "guard-fault" => guard::fault_probe(args.get("which").unwrap_or("tail")),
+        "noop" => {}
         "twiddle" => {
             let k = args.get_usize("k").unwrap_or(1) as u64;
             let n = args.get_usize("n").unwrap_or(7) as u64;
@@ -102,6 +111,13 @@ fn main() {
             println!("{:e} {:e} {:e} {:e}", c.hi, c.lo, s.hi, s.lo);
         }
         "acc" => acc::run(&args),
+        "fpx" => fpx::run(&args),
+        "shape" => shape::run(&args),
+        "c10" => seqmon::run(&args),
+        "c11" => conc::run(&args),
+        "c04" => planmon::run_c04(&args),
+        "c05" => planmon::run_c05(&args),
+        "c06" => planmon::run_c06(&args),
         _ => {
             eprintln!("usage: fftmon <selftest|guard-fault|acc|...> [--tier quick|thorough] [--seed N] [--shard i/N] ...");
             std::process::exit(2);
